@@ -400,18 +400,44 @@ class OutgoingMessageHandler:
     async def handle_internal(
         cls,
         gateway: Gateway,
-        message: Message,
-        message_buffer: MessageBuffer | None,
+        message: Message,  # noqa: ARG003
+        message_buffer: MessageBuffer | None,  # noqa: ARG003
         decoded_message: str,
     ) -> None:
         """Process outgoing internal messages."""
-        if message_buffer:
-            message_buffer.internal_messages[
-                (message.node_id, message.child_id, message.message_type)
-            ] = message
+        await gateway.transport.write(decoded_message)
 
-            return
+    @classmethod
+    async def handle_presentation(
+        cls,
+        gateway: Gateway,
+        message: Message,  # noqa: ARG003
+        message_buffer: MessageBuffer | None,  # noqa: ARG003
+        decoded_message: str,
+    ) -> None:
+        """Process outgoing presentation messages."""
+        await gateway.transport.write(decoded_message)
 
+    @classmethod
+    async def handle_req(
+        cls,
+        gateway: Gateway,
+        message: Message,  # noqa: ARG003
+        message_buffer: MessageBuffer | None,  # noqa: ARG003
+        decoded_message: str,
+    ) -> None:
+        """Process outgoing req messages."""
+        await gateway.transport.write(decoded_message)
+
+    @classmethod
+    async def handle_stream(
+        cls,
+        gateway: Gateway,
+        message: Message,  # noqa: ARG003
+        message_buffer: MessageBuffer | None,  # noqa: ARG003
+        decoded_message: str,
+    ) -> None:
+        """Process outgoing stream messages."""
         await gateway.transport.write(decoded_message)
 
 
